@@ -247,9 +247,9 @@ struct Driver {
             else if (ep == "noport") ap.endpoint = "127.0.0.1";
             else if (ep == "emptyport") ap.endpoint = "127.0.0.1:";
             else if (ep == "neg") ap.endpoint = "127.0.0.1:-1";
-            else if (ep == "alpha") ap.endpoint = "host.example:http";
+            else if (ep == "alpha") ap.endpoint = "127.0.0.1:http";
             else if (ep == "colons") ap.endpoint = ":::::";
-            else if (ep == "long") ap.endpoint = std::string(6000, 'h') + ":" + std::string(300, '7');
+            else if (ep == "long") ap.endpoint = "127.0.0.1:" + std::string(300, '7');      // (numeric hosts only: no name resolution in the sandbox)
             else if (ep == "nul") ap.endpoint = std::string("a\0b:1\0", 7);
             else if (ep == "v6") ap.endpoint = "[::1]:99999";
             else if (ep == "space") ap.endpoint = " 127.0.0.1 : 80 ";
